@@ -20,7 +20,9 @@ def _reg(i):
 # a later sample that sorts before an earlier one and shares its groups (batch composition matters for group ids)
 UNSORTED = [(b"sB", [(b"c1", C1), (b"c2", C3)]), (b"sA", [(b"c1", C2), (b"c2", C3)]), (b"sC", [(b"c1", C1)])]
 P2 = Int(64, 0, 2)
-QUICK = [_reg(Pipeline("det_api_t2", 2, TWO, splitters=SPL, preempt=1, driver="api", view="determinism")).name,
+UNSORTED2 = [(b"sB", [(b"c1", C1)]), (b"sA", [(b"c1", C2)])]
+QUICK = [_reg(Pipeline("det_multi_t1_p1", 1, UNSORTED2, splitters=SPL, preempt=1, driver="multi", view="determinism")).name,
+         _reg(Pipeline("det_api_t2", 2, TWO, splitters=SPL, preempt=1, driver="api", view="determinism")).name,
          _reg(Pipeline("det_multi_t2", 2, UNSORTED, splitters=SPL, preempt=0, driver="multi", view="determinism")).name,
          _reg(Pipeline("det_single_t2", 2, THREE, splitters=SPL, preempt=0, driver="single", view="determinism", pack_size=P2)).name]
 THOROUGH = [_reg(Pipeline("T_det_api_t3", 3, TWO, splitters=SPL, preempt=1, driver="api", view="determinism")).name,
